@@ -36,6 +36,7 @@ theorem PInv.event_unique {w : World} (hp : PInv ex fr w) {x : Pid} {a b : Nat} 
 /-- exempting one more process only weakens the invariant -/
 theorem PInv.exempt {w : World} (hp : PInv ex fr w) (p : Pid) : PInv (exAdd ex p) fr w :=
   { hp with
+    fb := fun x hx => hp.fb x (fun h => hx (Or.inl h))
     w1 := fun x q hq hx => hp.w1 x q hq (fun h => hx (Or.inl h))
     e1 := fun h l q hm hq hx => hp.e1 h l q hm hq (fun h => hx (Or.inl h))
     op := fun e he ha x hb hx => hp.op e he ha x hb (fun h => hx (Or.inl h))
@@ -46,8 +47,13 @@ theorem PInv.exempt {w : World} (hp : PInv ex fr w) (p : Pid) : PInv (exAdd ex p
 /-- the exemption can be dropped once the process is registered nowhere and has no process / event wake-up pending -/
 theorem PInv.unexempt {w : World} {p : Pid} (hp : PInv (exAdd ex p) fr w)
     (hnoev : ∀ e ∈ w.ev.pending, e.item.a = aProc ∨ e.item.a = aEvent → e.item.b ≠ p + 1)
-    (hnow : ∀ x, p ∉ (w.proc x).waiters) (hnoe : ∀ h l, (h, l) ∈ w.evWaiters → p ∉ l) : PInv ex fr w :=
+    (hnow : ∀ x, p ∉ (w.proc x).waiters) (hnoe : ∀ h l, (h, l) ∈ w.evWaiters → p ∉ l)
+    (hfbp : (w.proc p).blocked ≠ fr p → procAw w p = [] ∧ evAw w p = []) : PInv ex fr w :=
   { hp with
+    fb := fun x hx => by
+      by_cases hxp : x = p
+      · subst hxp; exact hfbp
+      · exact hp.fb x (fun h => h.elim hx hxp)
     w1 := fun x q hq hx => by
       by_cases hqp : q = p
       · subst hqp; exact absurd hq (hnow x)
@@ -73,49 +79,46 @@ theorem PInv.unexempt {w : World} {p : Pid} (hp : PInv (exAdd ex p) fr w)
       · subst hxp; exact absurd hbx (hnoev a ha (Or.inr haa))
       · exact hp.ue a ha b hb haa hba hbb x hbx (fun h => h.elim hx hxp) }
 
-/-- the awaits of an exempt process may be rewritten freely as long as no process / event registration is left in
-    a way that contradicts its frame; here: none is left -/
-theorem PInv.setAwaitsEx {w : World} {p : Pid} (hp : PInv (exAdd ex p) fr w) (l' : List Await)
-    (hl1 : l'.filter isProcA = []) (hl2 : l'.filter isEventA = []) :
-    PInv (exAdd ex p) fr (w.modProc p fun x => { x with awaits := l' }) := by
-  have hpr : ∀ x, x ≠ p → (w.modProc p fun x => { x with awaits := l' }).proc x = w.proc x :=
-    fun x hx => modProc_proc_ne w _ hx
-  have hother : ∀ x, (w.modProc p fun x => { x with awaits := l' }).proc x = w.proc x ∨
-      (x = p ∧ ((w.modProc p fun x => { x with awaits := l' }).proc x).waiters = (w.proc x).waiters ∧
-        ((w.modProc p fun x => { x with awaits := l' }).proc x).status = (w.proc x).status ∧
-        ((w.modProc p fun x => { x with awaits := l' }).proc x).blocked = (w.proc x).blocked ∧
-        procAw (w.modProc p fun x => { x with awaits := l' }) x = [] ∧
-        evAw (w.modProc p fun x => { x with awaits := l' }) x = []) := by
+/-- the record of an exempt process may be rewritten freely (awaits, recorded frame, …) as long as its waiter list
+    and status stay and no process / event registration is left -/
+theorem PInv.modProcEx {w : World} {p : Pid} (hp : PInv (exAdd ex p) fr w) (f : Proc → Proc)
+    (hfw : (f (w.proc p)).waiters = (w.proc p).waiters) (hfs : (f (w.proc p)).status = (w.proc p).status)
+    (hl1 : (f (w.proc p)).awaits.filter isProcA = []) (hl2 : (f (w.proc p)).awaits.filter isEventA = []) :
+    PInv (exAdd ex p) fr (w.modProc p f) := by
+  have hpr : ∀ x, x ≠ p → (w.modProc p f).proc x = w.proc x := fun x hx => modProc_proc_ne w _ hx
+  have hother : ∀ x, (w.modProc p f).proc x = w.proc x ∨
+      (x = p ∧ ((w.modProc p f).proc x).waiters = (w.proc x).waiters ∧
+        ((w.modProc p f).proc x).status = (w.proc x).status ∧
+        procAw (w.modProc p f) x = [] ∧ evAw (w.modProc p f) x = []) := by
     intro x
     by_cases hx : x = p
     · subst hx
       by_cases hs : x < w.procs.size
       · right
-        refine ⟨rfl, ?_, ?_, ?_, ?_, ?_⟩
-        · rw [modProc_proc_self w _ hs]
-        · rw [modProc_proc_self w _ hs]
-        · rw [modProc_proc_self w _ hs]
+        refine ⟨rfl, ?_, ?_, ?_, ?_⟩
+        · rw [modProc_proc_self w _ hs]; exact hfw
+        · rw [modProc_proc_self w _ hs]; exact hfs
         · unfold procAw; rw [modProc_proc_self w _ hs]; exact hl1
         · unfold evAw; rw [modProc_proc_self w _ hs]; exact hl2
       · left; rw [modProc_proc]; simp [hs]
     · left; exact hpr x hx
-  have hw : ∀ x, ((w.modProc p fun x => { x with awaits := l' }).proc x).waiters = (w.proc x).waiters := by
+  have hw : ∀ x, ((w.modProc p f).proc x).waiters = (w.proc x).waiters := by
     intro x; rcases hother x with h | ⟨_, h, _⟩
     · rw [h]
     · exact h
   refine { ei := hp.ei, ap := ?_, ae := ?_, ar := ?_, fb := ?_, w1 := ?_, wn := ?_, e1 := ?_, en := hp.en,
            op := ?_, oe := ?_, up := hp.up, ue := hp.ue }
-  · intro x; rcases hother x with h | ⟨_, _, _, _, h, _⟩
+  · intro x; rcases hother x with h | ⟨_, _, _, h, _⟩
     · unfold procAw; rw [h]; exact hp.ap x
     · exact Or.inl h
-  · intro x; rcases hother x with h | ⟨_, _, _, _, _, h⟩
+  · intro x; rcases hother x with h | ⟨_, _, _, _, h⟩
     · unfold evAw; rw [h]; exact hp.ae x
     · exact Or.inl h
-  · intro x hx; rcases hother x with h | ⟨_, _, _, _, h1, h2⟩
+  · intro x hx; rcases hother x with h | ⟨_, _, _, h1, h2⟩
     · unfold procAw evAw; rw [h] at hx ⊢; exact hp.ar x hx
     · exact ⟨h1, h2⟩
-  · intro x hx; rcases hother x with h | ⟨_, _, _, _, h1, h2⟩
-    · unfold procAw evAw; rw [h] at hx ⊢; exact hp.fb x hx
+  · intro x hxx hx; rcases hother x with h | ⟨_, _, _, h1, h2⟩
+    · unfold procAw evAw; rw [h] at hx ⊢; exact hp.fb x hxx hx
     · exact ⟨h1, h2⟩
   · intro x q hq hx
     rw [hw] at hq
@@ -133,5 +136,100 @@ theorem PInv.setAwaitsEx {w : World} {p : Pid} (hp : PInv (exAdd ex p) fr w) (l'
     have hxp : x ≠ p := fun h => hx (Or.inr h)
     obtain ⟨h, h1, h2⟩ := hp.oe e he ha x hb hx
     exact ⟨h, by rw [hpr x hxp]; exact h1, h2⟩
+
+/-- shrinking a waiter list never hurts -/
+theorem PInv.shrinkWaiters {w : World} (hp : PInv ex fr w) (q : Pid) (g : List Pid → List Pid)
+    (hsub : ∀ l x, x ∈ g l → x ∈ l) (hnd : ∀ l, l.Nodup → (g l).Nodup) :
+    PInv ex fr (w.modProc q fun y => { y with waiters := g y.waiters }) := by
+  have hpr : ∀ x, ((w.modProc q fun y => { y with waiters := g y.waiters }).proc x).awaits = (w.proc x).awaits ∧
+      ((w.modProc q fun y => { y with waiters := g y.waiters }).proc x).status = (w.proc x).status ∧
+      ((w.modProc q fun y => { y with waiters := g y.waiters }).proc x).blocked = (w.proc x).blocked ∧
+      (∀ y, y ∈ ((w.modProc q fun y => { y with waiters := g y.waiters }).proc x).waiters → y ∈ (w.proc x).waiters) ∧
+      ((w.modProc q fun y => { y with waiters := g y.waiters }).proc x).waiters.Nodup := by
+    intro x; rw [modProc_proc]; split
+    · rename_i h; rw [h.1]; exact ⟨rfl, rfl, rfl, hsub _, hnd _ (hp.wn q)⟩
+    · exact ⟨rfl, rfl, rfl, fun _ h => h, hp.wn x⟩
+  have hpa : ∀ x, procAw (w.modProc q fun y => { y with waiters := g y.waiters }) x = procAw w x := by
+    intro x; unfold procAw; rw [(hpr x).1]
+  have hea : ∀ x, evAw (w.modProc q fun y => { y with waiters := g y.waiters }) x = evAw w x := by
+    intro x; unfold evAw; rw [(hpr x).1]
+  refine { ei := hp.ei, ap := fun x => by rw [hpa]; exact hp.ap x, ae := fun x => by rw [hea]; exact hp.ae x,
+           ar := fun x hx => by rw [hpa, hea]; rw [(hpr x).2.1] at hx; exact hp.ar x hx,
+           fb := fun x hxx hx => by rw [hpa, hea]; rw [(hpr x).2.2.1] at hx; exact hp.fb x hxx hx,
+           w1 := fun x y hy hxy => by rw [(hpr y).1]; exact hp.w1 x y ((hpr x).2.2.2.1 y hy) hxy,
+           wn := fun x => (hpr x).2.2.2.2,
+           e1 := fun h l y hm hy hxy => by rw [(hpr y).1]; exact hp.e1 h l y hm hy hxy,
+           en := hp.en, op := ?_, oe := ?_, up := hp.up, ue := hp.ue }
+  · intro e he ha x hb hx
+    obtain ⟨q', h1, h2⟩ := hp.op e he ha x hb hx
+    exact ⟨q', by rw [(hpr x).1]; exact h1, fun hm => h2 ((hpr q').2.2.2.1 x hm)⟩
+  · intro e he ha x hb hx
+    obtain ⟨h, h1, h2⟩ := hp.oe e he ha x hb hx
+    exact ⟨h, by rw [(hpr x).1]; exact h1, h2⟩
+
+theorem removeFirst_subset {α : Type} [DecidableEq α] (l : List α) (a x : α) (h : x ∈ (removeFirst l a).1) : x ∈ l := by
+  induction l with
+  | nil => simp [removeFirst] at h
+  | cons y ys ih =>
+    unfold removeFirst at h
+    by_cases hy : y = a
+    · simp only [hy, if_true] at h; exact List.mem_cons_of_mem _ h
+    · simp only [hy, if_false] at h
+      rcases List.mem_cons.1 h with rfl | h
+      · exact List.mem_cons_self
+      · exact List.mem_cons_of_mem _ (ih h)
+
+theorem removeFirst_nodup {α : Type} [DecidableEq α] (l : List α) (a : α) (h : l.Nodup) :
+    (removeFirst l a).1.Nodup ∧ a ∉ (removeFirst l a).1 := by
+  induction l with
+  | nil => simp [removeFirst]
+  | cons y ys ih =>
+    unfold removeFirst
+    have hn := List.nodup_cons.1 h
+    by_cases hy : y = a
+    · subst hy; simp only [if_true]; exact ⟨hn.2, hn.1⟩
+    · simp only [hy, if_false]
+      obtain ⟨i1, i2⟩ := ih hn.2
+      refine ⟨List.nodup_cons.2 ⟨fun hm => hn.1 (removeFirst_subset ys a y hm), i1⟩, ?_⟩
+      intro hm
+      rcases List.mem_cons.1 hm with h | h
+      · exact hy h.symm
+      · exact i2 h
+
+theorem removeFirst_snd {α : Type} [DecidableEq α] (l : List α) (a : α) : (removeFirst l a).2 = decide (a ∈ l) := by
+  induction l with
+  | nil => simp [removeFirst]
+  | cons y ys ih =>
+    unfold removeFirst
+    by_cases hy : y = a
+    · subst hy; simp
+    · simp only [hy, if_false, ih]
+      have : ¬ a = y := fun h => hy h.symm
+      simp [this]
+
+
+theorem removeFirst_filter_self {α : Type} [DecidableEq α] (l : List α) (a : α) (f : α → Bool) (hf : f a = true) :
+    (removeFirst l a).1.filter f = (removeFirst (l.filter f) a).1 := by
+  induction l with
+  | nil => rfl
+  | cons x xs ih =>
+    by_cases hx : x = a
+    · subst hx
+      simp [removeFirst, hf]
+    · by_cases hfx : f x = true
+      · simp only [removeFirst, hx, if_false, List.filter_cons, hfx, if_true, ih]
+      · simp only [removeFirst, hx, if_false, List.filter_cons, hfx, Bool.false_eq_true, ih]
+
+theorem modProc_modProc (w : World) (p : Pid) (f g : Proc → Proc) :
+    (w.modProc p f).modProc p g = w.modProc p (fun x => g (f x)) := by
+  unfold World.modProc
+  simp only
+  congr 1
+  apply Array.ext_getElem?
+  intro i
+  simp only [Array.getElem?_modify]
+  split
+  · cases w.procs[i]? <;> rfl
+  · rfl
 
 end CimbaModel.Sim.S3
